@@ -73,7 +73,47 @@ LET.update({
     'BDqw': {'k': 'bdiagop', 'blocks': ['Q1', 'W']},
     'BRqs': {'k': 'row', 'blocks': ['Q2', 'Hs']},
     'BCqs': {'k': 'col', 'blocks': ['Q3', 'W']},
+    # ---- every WRAPPER class as a block (and what it wraps) ----
+    # user-defined operators relying on every default of AbstractLinearOperator (lazy TransposeOperator, lazy
+    # InverseOperator, generic as_matrix): square, neither symmetric nor orthogonal
+    'U22': {'k': 'user', 'm': [[1, 1], [0, 1]]},
+    'U22b': {'k': 'user', 'm': [[2, 1], [0, 1]]},
+    'U33': {'k': 'user', 'm': [[1, 0, 0], [1, 1, 0], [1, 1, 1]]},
+    'Us22': {'k': 'user', 'm': [[2, 1], [1, 2]]},           # symmetric positive definite (CG-invertible)
+    'U23': {'k': 'user', 'm': [[1, 2, 0], [0, 1, 1]]},      # [3] -> [2]
+    # library classes with the default lazy transpose: square broadcast-diagonal, square index selection (permutation)
+    'Bd2': {'k': 'bdiag', 'v': [2, 4], 's': [2]},
+    'X3p': {'k': 'index', 'idx': [{'arr': [2, 0, 1]}], 's': [3], 'unique': True},
+    # plain lazy TransposeOperator: A.T of the classes above and the explicit TransposeOperator(A) of a dense block
+    'U22T': {'k': 'expr', 'e': {'T': 'U22'}},
+    'U22bT': {'k': 'expr', 'e': {'T': 'U22b'}},
+    'U33T': {'k': 'expr', 'e': {'T': 'U33'}},
+    'U23T': {'k': 'expr', 'e': {'T': 'U23'}},                # [2] -> [3]
+    'Bd2T': {'k': 'expr', 'e': {'T': 'Bd2'}},
+    'X3pT': {'k': 'expr', 'e': {'T': 'X3p'}},
+    'LtA22': {'k': 'lazyT', 'of': 'A22'},
+    'LtA23': {'k': 'lazyT', 'of': 'A23'},                    # [2] -> [3]
+    # ReshapeTransposeOperator of a square (no-op) ravel; QURotationTransposeOperator: Q1T, Q2T of the shared alphabet
+    'R6T': {'k': 'expr', 'e': {'T': 'R6'}},
+    # DiagonalInverseOperator (D2I of the shared alphabet), lazy InverseOperator of SPD operators (S22I shared)
+    'D3I': {'k': 'expr', 'e': {'I': 'D3'}},
+    'Us22I': {'k': 'expr', 'e': {'I': 'Us22'}},
+    # compositions and sums as blocks (CAB, SAB, NS shared), also over lazy wrappers
+    'CUT': {'k': 'expr', 'e': {'mm': ['U22T', 'A22']}},
+    'SUT': {'k': 'expr', 'e': {'add': ['U22bT', 'B22']}},
+    'CUI': {'k': 'expr', 'e': {'mm': ['U22', 'S22I']}},
+    'C23': {'k': 'expr', 'e': {'mm': ['U22T', 'A23']}},      # [3] -> [2]
+    # a block-diagonal block over lazy wrappers (inverse() recurses into it)
+    'BDu': {'k': 'bdiagop', 'blocks': {'tuple': ['U22T', 'D2I']}},
 })
+# the wrapper / composite blocks, by the shared structure they can be given
+WRAP_SQ2 = ['U22T', 'U22bT', 'Bd2T', 'LtA22', 'D2I', 'S22I', 'Us22I', 'CUT', 'SUT', 'CUI', 'CAB', 'SAB', 'NS', 'U22', 'U22b', 'Us22', 'Bd2']
+WRAP_SQ3 = ['U33T', 'X3pT', 'D3I', 'U33', 'X3p']
+WRAP_SQS = ['Q1T', 'Q2T']
+WRAP_SQO = ['R6T', 'BDu']                       # other structures (block-diagonal only)
+WRAP_23 = ['U23', 'C23', 'X3u']                 # [3] -> [2]
+WRAP_32 = ['U23T', 'LtA23', 'X3uT', 'A23T']     # [2] -> [3]
+WRAPPERS = WRAP_SQ2 + WRAP_SQ3 + WRAP_SQS + WRAP_SQO + WRAP_23 + WRAP_32
 
 # ---- pytree-valued SHARED structures (the side a block row / column validates at construction) ----
 # Every way two pytree structures can differ, over the same few leaves: container kind with equal leaves
@@ -156,23 +196,76 @@ VOPS['s'] += ['A22', 'H2', 'D2', 'BR', 'BC']
 VOPS['w'] += ['A33', 'D3']
 
 # pools of blocks by shared structure
-OUT2 = ['A22', 'B22', 'S22', 'A23', 'I2', 'H2', 'BR', 'BRw', 'D2', 'A22s']
-OUT3 = ['A32', 'A33', 'I3', 'Hm3', 'D3']
-OUTS = ['Q1', 'Q2', 'W', 'Hs', 'Is']
-IN2 = ['A22', 'B22', 'S22', 'A32', 'I2', 'H2', 'BC', 'BCt', 'D2']
-IN3 = ['A23', 'A33', 'I3', 'Hm3', 'D3']
-INS = ['Q1', 'Q3', 'W', 'Hs', 'Is']
-SQUARE = ['A22', 'S22', 'I2', 'H2', 'D2', 'Q1', 'W', 'Hs', 'I3', 'Hm3', 'A33', 'BD', 'Is', 'Hh2', 'D3', 'Q2']
+OUT2 = ['A22', 'B22', 'S22', 'A23', 'I2', 'H2', 'BR', 'BRw', 'D2', 'A22s'] + WRAP_SQ2 + WRAP_23
+OUT3 = ['A32', 'A33', 'I3', 'Hm3', 'D3'] + WRAP_SQ3 + WRAP_32
+OUTS = ['Q1', 'Q2', 'W', 'Hs', 'Is'] + WRAP_SQS
+IN2 = ['A22', 'B22', 'S22', 'A32', 'I2', 'H2', 'BC', 'BCt', 'D2'] + WRAP_SQ2 + WRAP_32
+IN3 = ['A23', 'A33', 'I3', 'Hm3', 'D3'] + WRAP_SQ3 + WRAP_23
+INS = ['Q1', 'Q3', 'W', 'Hs', 'Is'] + WRAP_SQS
+SQUARE = (['A22', 'S22', 'I2', 'H2', 'D2', 'Q1', 'W', 'Hs', 'I3', 'Hm3', 'A33', 'BD', 'Is', 'Hh2', 'D3', 'Q2', 'B22']
+          + WRAP_SQ2 + WRAP_SQ3 + WRAP_SQS + WRAP_SQO)
 ANY = sorted(set(OUT2 + OUT3 + OUTS + IN2 + IN3 + INS + SQUARE))
+PLAIN = [n for n in ANY if n not in WRAPPERS]      # section 1 enumerates these; section 6 the wrappers
 # blocks whose inverse() is a closed form that the executable model can apply
 CLOSED_INV = {'I2', 'I3', 'Is', 'H2', 'Hh2', 'Hm3', 'Hs', 'Q1', 'Q2', 'Q3'}
 
 _env: dict = {}
 
 
+_user: dict = {}
+
+
+def user_class():
+    """A user-defined operator: a direct subclass of AbstractLinearOperator that defines mv and its structures only
+    (its .T is the lazy TransposeOperator, its .I the lazy InverseOperator, its as_matrix the generic one)."""
+    if not _user:
+        import equinox
+
+        j = A.J()
+
+        class CumulOperator(j['core'].AbstractLinearOperator):
+            matrix: j['jax'].Array
+            _in: object = equinox.field(static=True)
+
+            def __init__(self, matrix, in_structure):
+                self.matrix = matrix
+                self._in = in_structure
+
+            def mv(self, x):
+                return self.matrix @ x
+
+            def in_structure(self):
+                return self._in
+
+            def out_structure(self):      # (declared only to spare the harness thousands of jax.eval_shape traces)
+                return j['jax'].ShapeDtypeStruct((self.matrix.shape[0],), self.matrix.dtype)
+
+        _user['cls'] = CumulOperator
+    return _user['cls']
+
+
+def build_env(let: dict) -> dict:
+    """algebra.build_env plus the operand kinds of this module: 'user' (user-defined class) and 'lazyT' (explicit
+    TransposeOperator(A))."""
+    j = A.J()
+    env: dict = {}
+    for name, d in let.items():
+        try:
+            if d['k'] == 'user':
+                m = np.array(d['m'], dtype=np.float32)
+                env[name] = user_class()(j['jnp'].asarray(m), j['jax'].ShapeDtypeStruct((m.shape[1],), j['jnp'].float32))
+            elif d['k'] == 'lazyT':
+                env[name] = j['core'].TransposeOperator(env[d['of']])
+            else:
+                env[name] = A.build_operand(d, env)
+        except Exception as e:  # reported by the cases that use the operand
+            env[name] = A.Unbuildable(name, e)
+    return env
+
+
 def ENV():
     if not _env:
-        _env.update(A.build_env(LET))
+        _env.update(build_env(LET))
     return _env
 
 
@@ -281,6 +374,117 @@ def stacked_reference(kind, leaves):
     return scipy.linalg.block_diag(*ms)
 
 
+def result_matrix(op) -> np.ndarray:
+    """NumPy evaluation of a RESULT operator from its structure: lazy wrappers, compositions, sums and block operators
+    are evaluated from the matrices of the objects they hold (transpose -> .T, lazy inverse -> numpy.linalg.inv,
+    DiagonalInverse -> reciprocal of the non-zero diagonal); leaf objects are measured on basis vectors."""
+    import scipy.linalg
+
+    j = A.J()
+    core, blocks = j['core'], j['blocks']
+    if isinstance(op, core.CompositionOperator):
+        m = None
+        for o in op.operands:
+            mo = result_matrix(o)
+            m = mo if m is None else m @ mo
+        return m
+    if isinstance(op, core.AdditionOperator):
+        return sum(result_matrix(o) for o in op.operand_leaves)
+    if isinstance(op, blocks.BlockRowOperator):
+        return np.hstack([result_matrix(o) for o in op.block_leaves])
+    if isinstance(op, blocks.BlockColumnOperator):
+        return np.vstack([result_matrix(o) for o in op.block_leaves])
+    if isinstance(op, blocks.BlockDiagonalOperator):
+        return scipy.linalg.block_diag(*[result_matrix(o) for o in op.block_leaves])
+    if isinstance(op, core.IdentityOperator):
+        return np.eye(A.struct_size(op.in_structure()))
+    if isinstance(op, core.HomothetyOperator):
+        return float(op.value) * np.eye(A.struct_size(op.in_structure()))
+    if type(op).__name__ == 'DiagonalInverseOperator':
+        d = np.diag(result_matrix(op.operator))
+        return np.diag(np.where(d != 0, 1 / np.where(d != 0, d, 1), 0))
+    if isinstance(op, core.TransposeOperator):        # plain, Reshape and QURotation (orthogonal) lazy transposes
+        return result_matrix(op.operator).T
+    if isinstance(op, core.AbstractLazyInverseOperator):
+        return np.linalg.inv(result_matrix(op.operator))
+    return A.leaf_matrix(op)
+
+
+def _parts(op):
+    j = A.J()
+    core, blocks = j['core'], j['blocks']
+    if isinstance(op, core.CompositionOperator):
+        return list(op.operands)
+    if isinstance(op, core.AdditionOperator):
+        return list(op.operand_leaves)
+    if isinstance(op, blocks.AbstractBlockOperator):
+        return list(op.block_leaves)
+    if isinstance(op, core._AbstractLazyDualOperator):
+        return [op.operator]
+    return []
+
+
+def has_solver(op) -> bool:
+    return isinstance(op, A.J()['core'].InverseOperator) or any(has_solver(o) for o in _parts(op))
+
+
+def _spd(m) -> bool:
+    return m.shape[0] == m.shape[1] and np.allclose(m, m.T) and bool(np.all(np.linalg.eigvalsh((m + m.T) / 2) > 1e-6))
+
+
+def exact_mv(op) -> bool:
+    """Is op.mv the linear map of the operator's matrix?  Not when it goes through the iterative solver of a lazy
+    InverseOperator on a matrix that is not symmetric positive definite (conjugate gradient), nor through the
+    transpose of a solver (jax.linear_transpose of the solve is not supported by the library)."""
+    core = A.J()['core']
+    if isinstance(op, core.InverseOperator):
+        return exact_mv(op.operator) and _spd(result_matrix(op.operator))
+    if type(op) is core.TransposeOperator and has_solver(op.operator):
+        return False
+    return all(exact_mv(o) for o in _parts(op))
+
+
+def exact_asmat(op) -> bool:
+    """Is op.as_matrix() computed without an inexact mv?  (Lazy inverses override as_matrix with
+    jnp.linalg.inv(operator.as_matrix()); block operators stack the as_matrix() of their blocks.)"""
+    j = A.J()
+    core, blocks = j['core'], j['blocks']
+    if isinstance(op, blocks.AbstractBlockOperator):
+        return all(exact_asmat(o) for o in op.block_leaves)
+    if isinstance(op, core.AbstractLazyInverseOperator) and type(op).__name__ != 'DiagonalInverseOperator':
+        return exact_asmat(op.operator)
+    return exact_mv(op)
+
+
+def apply_seq(op, seq: str):
+    """op.T / op.I applied from left to right: 'TI' is op.T.I."""
+    with A.quiet_config():
+        for s in seq:
+            op = op.T if s == 'T' else op.I
+    return op
+
+
+def numpy_seq(m: np.ndarray, seq: str) -> np.ndarray:
+    for s in seq:
+        m = m.T if s == 'T' else np.linalg.inv(m)
+    return m
+
+
+STEPS = {'T': 'ST', 'I': 'SI'}
+SEQS_SQUARE = ('T', 'I', 'TT', 'TI', 'IT', 'II', 'TIT')   # block-diagonal operators whose blocks are all square
+SEQS_OTHER = ('TT',)                                       # the others (.T itself is observed separately)
+
+
+def _stack(kind, ms):
+    import scipy.linalg
+
+    return np.hstack(ms) if kind == 'row' else np.vstack(ms) if kind == 'col' else scipy.linalg.block_diag(*ms)
+
+
+def _seq_term(q: str) -> str:
+    return f'Inverse.observe_i tb (x_steps default_order {clist(list(q), STEPS.get)} e)'
+
+
 def closed_inverse(case):
     return case['block'] == 'bdiagop' and all(n in CLOSED_INV for n in case['names'])
 
@@ -293,8 +497,10 @@ def strip(o):
 class Check(PropertyCheck):
     id = 'C10'
     props = ['C10.v']
-    static_targets = ['theories/Model/Exec.vo', 'theories/Model/BlockMat.vo', 'theories/Lemmas/BlocksL.vo']
-    coq_header = A.COQ_HEADER + 'From Furax Require Import Model.Wf Model.BlockMat.\nLocal Open Scope string_scope.\n'
+    static_targets = ['theories/Model/Exec.vo', 'theories/Model/BlockMat.vo', 'theories/Lemmas/BlocksL.vo',
+                      'theories/Model/Inverse.vo']
+    coq_header = (A.COQ_HEADER + 'From Furax Require Import Model.Wf Model.BlockMat.\nFrom Furax Require Model.Inverse.\n'
+                  'Local Open Scope string_scope.\n')
     shard = 40
     workers = 8
     trusted = [
@@ -324,7 +530,7 @@ class Check(PropertyCheck):
         self.stats['unbuildable_operands'] = bad
         out, seen = [], set()
 
-        def add(kind, shape, names, expect):
+        def add(kind, shape, names, expect, deep=False):
             arity, mk = SHAPES[shape]
             names = list(names)[:arity]
             k = (kind, shape, tuple(names))
@@ -333,12 +539,14 @@ class Check(PropertyCheck):
             seen.add(k)
             out.append({'kind': 'single' if expect == 'ok' else 'mismatch', 'block': kind, 'shape': shape,
                         'container': mk(names), 'names': names, 'xseed': rng.randrange(10**6)})
+            if deep:
+                out[-1]['deep'] = True      # also as_matrix() of .I and .T.I
 
         pools = {'row': [OUT2, OUT3, OUTS], 'col': [IN2, IN3, INS], 'bdiagop': [ANY, SQUARE]}
         # 1. every block kind alone in every single-block container (arity one; the bare block)
         for kind in KIND:
             for shape in ('bare', 'list1', 'tuple1', 'dict1'):
-                names = ANY if (not quick or shape in ('bare', 'list1')) else rng.sample(ANY, 6)
+                names = (ANY if not quick else PLAIN) if (not quick or shape in ('bare', 'list1')) else rng.sample(ANY, 6)
                 for n in names:
                     add(kind, shape, [n], 'ok')
         # 2. matching blocks in every container shape
@@ -415,6 +623,29 @@ class Check(PropertyCheck):
                     add_pair(kind, shape, a, b)
                 for a, b in far[: 2 if quick else 60]:
                     add_pair(kind, shape, a, b)
+        # 6. EVERY wrapper class (lazy TransposeOperator of user-defined / broadcast-diagonal / index / dense operators,
+        #    explicit TransposeOperator(A), ReshapeTranspose, QURotationTranspose, DiagonalInverse, lazy InverseOperator) and
+        #    compositions / sums / block-diagonals over them as a block, at a random position of every container shape
+        #    (quick: the bare block, one single-block and two multi-block containers), among blocks of the same pool:
+        #    exercised by .T / .I / .T.T / .T.I / .I.T / .I.I / .T.I.T (block-diagonal with square blocks) or .T / .T.T
+        shapes_all = list(SHAPES)
+        for kind in KIND:
+            for w in WRAPPERS:
+                if w in bad:
+                    continue
+                mine = [p for p in pools[kind] if w in p]
+                if not mine:
+                    continue
+                shapes = shapes_all if not quick else (['bare', rng.choice(shapes_all[1:4])]
+                                                       + rng.sample(multi, 2 if kind == 'bdiagop' else 1))
+                for shape in shapes:
+                    for _ in range(1 if quick else 3):
+                        p = rng.choice(mine)
+                        if kind == 'bdiagop' and p is ANY and rng.random() < 0.7:
+                            p = SQUARE        # mostly all-square companions, so that the inverse is block by block
+                        names = [rng.choice(p) for _ in range(SHAPES[shape][0])]
+                        names[rng.randrange(len(names))] = w
+                        add(kind, shape, names, 'ok', deep=kind == 'bdiagop')
         # 4. products of block operators: every compatible ordered pair, sampled incompatible ones
         t = self._typed()
         blockops = sorted(n for n, d in LET.items() if d['k'] in KIND and n in t and not n.startswith(VPREFIX))
@@ -508,6 +739,7 @@ class Check(PropertyCheck):
         case['_l'] = clist(terms, str)
         case['_td'] = td
         case['_x'] = None
+        case['_seqs'] = []
         if op is not None and case['kind'] == 'single':
             ref = stacked_reference(kind, leaves)
             obs['ref'] = A.mat_json(A.frac_matrix(ref))
@@ -536,9 +768,18 @@ class Check(PropertyCheck):
                 obs['mv'] = None
                 obs['mv_error'] = f'{type(e).__name__}: {str(e)[:200]}'
             obs['mv_ref'] = [A.frac_json(A.to_frac(v)) for v in ref @ A.flat(x)]
-            tobs = A.observe_impl(lambda: op.T, enc)
+            tobs = A.observe_impl(lambda: op.T, enc, want_matrix=False)
             if '_op' in tobs:
                 tobs['keys'] = {'in': G.key(tobs['_op'].in_structure()), 'out': G.key(tobs['_op'].out_structure())}
+                # the transpose of an iterative solver cannot be applied (unsupported by the library): its matrix is
+                # then only evaluated from its structure (obs['seq']['T'])
+                tobs['exact'] = exact_mv(tobs['_op'])
+                tobs['mat'] = None
+                if tobs['exact']:
+                    try:
+                        tobs['mat'] = A.mat_json(A.frac_matrix(A.dense(tobs['_op'])))
+                    except Exception as e:
+                        tobs['mat_error'] = f'{type(e).__name__}: {str(e)[:200]}'
             obs['T'] = strip(tobs)
             closed = closed_inverse(case)
             with A.quiet_config():
@@ -555,10 +796,53 @@ class Check(PropertyCheck):
                 obs['asmat'] = None
                 obs['asmat_error'] = f'{type(e).__name__}: {str(e)[:200]}'
             obs['reduce'] = strip(A.observe_impl(lambda: op.reduce(), enc))
+            # sequences of .T / .I: structure, block-by-block skeleton and dense matrix against NumPy on the blocks' matrices
+            seqs = SEQS_SQUARE if kind == 'bdiagop' and all(inv['squares']) else SEQS_OTHER
+            ms = [A.reference_matrix(b) for b in leaves]
+            case['_seqs'] = list(seqs)
+            with_asmat = () if not case.get('deep') else ('TI',) if self.tier == 'quick' else ('I', 'TI', 'II')
+            obs['seq'] = {q: self.run_seq(kind, op, leaves, ms, q, enc, asmat=q in with_asmat) for q in seqs}
         add_transposed_entries(enc)
         case['_table'] = enc.table_coq()
         case['_unsupported'] = enc.unsupported
         return obs
+
+    def run_seq(self, kind, op, leaves, ms, seq, enc, asmat=False):
+        o = A.observe_impl(lambda: apply_seq(op, seq), enc, want_matrix=False)
+        res = o.pop('_op', None)
+        if res is None:
+            return o
+        blocks = A.J()['blocks']
+        o['keys'] = {'in': G.key(res.in_structure()), 'out': G.key(res.out_structure())}
+        # the same steps on every block ALONE (never through the block operator)
+        try:
+            o['blockwise'] = [A.skeleton(apply_seq(b, seq), enc) for b in leaves]
+        except Exception as e:
+            o['blockwise_error'] = f'{type(e).__name__}: {str(e)[:200]}'
+        # expected: NumPy transposes / inverses of the blocks' matrices, stacked
+        try:
+            wb = [numpy_seq(m, seq) for m in ms]
+            k = kind if seq.count('T') % 2 == 0 else {'row': 'col', 'col': 'row', 'bdiagop': 'bdiagop'}[kind]
+            o['want'] = A.mat_json(A.frac_matrix(_stack(k, wb)))
+            o['want_blocks'] = [A.mat_json(A.frac_matrix(m)) for m in wb]
+        except np.linalg.LinAlgError:
+            o['want'] = None
+        # obtained: the result evaluated from its structure, applied to basis vectors, and its own as_matrix()
+        o['mat'] = None
+        try:
+            o['mat'] = A.mat_json(A.frac_matrix(result_matrix(res)))
+            if isinstance(res, blocks.AbstractBlockOperator):
+                o['blocks'] = [A.mat_json(A.frac_matrix(result_matrix(b))) for b in res.block_leaves]
+        except Exception as e:
+            o['mat_error'] = f'{type(e).__name__}: {str(e)[:200]}'
+        try:
+            if exact_mv(res):
+                o['dense'] = A.mat_json(A.frac_matrix(A.dense(res)))
+            if asmat and exact_asmat(res):
+                o['asmat'] = A.mat_json(A.frac_matrix(np.asarray(res.as_matrix(), dtype=np.float64)))
+        except Exception as e:
+            o['apply_error'] = f'{type(e).__name__}: {str(e)[:200]}'
+        return o
 
     def run_product(self, case):
         env = ENV()
@@ -593,7 +877,8 @@ class Check(PropertyCheck):
                 return f'({head}{ctor})'
             return (
                 f'({head}({ctor}, obs_mv tb e {case["_x"]}, observe tb (Ok (x_transpose e)), '
-                f'observe tb (x_binv default_order e), x_stacked tb {B} l, observe tb (x_reduce default_order e), wfo e))'
+                f'observe tb (x_binv default_order e), x_stacked tb {B} l, observe tb (x_reduce default_order e), wfo e, '
+                f'{clist(self._seqs(case), _seq_term)}))'
             )
         a, b = case['_a'], case['_b']
         return (
@@ -601,17 +886,27 @@ class Check(PropertyCheck):
             f'observe tb (bind (x_matmul {a} {b}) (x_reduce default_order))))'
         )
 
+    def _seqs(self, case):
+        return case.get('_seqs') or []
+
     def decode(self, case, v):
         if case['kind'] in ('single', 'mismatch'):
             if case['_x'] is None:
                 return {'ctor': A.decode_observation(v)}
-            ctor, mv, tr, inv, stacked, red, wf = v
+            ctor, mv, tr, inv, stacked, red, wf, sq = v
             d = {
                 'ctor': A.decode_observation(ctor), 'mv': decode_value(mv), 'T': A.decode_observation(tr),
                 'I': A.decode_observation(inv), 'asmat': decode_rows(stacked), 'reduce': A.decode_observation(red), 'wf': wf,
             }
             if not closed_inverse(case):
                 d['I'].pop('mat', None)
+            # the matrix of a sequence result is compared where the model has one (lazy inverses as exact inverses,
+            # Model/Inverse.v imat; none for the transpose of a lazy inverse created by the model)
+            d['seq'] = {q: A.decode_observation(o) for q, o in zip(self._seqs(case), sq)}
+            case['_seqmat'] = {q: o.get('mat') is not None for q, o in d['seq'].items()}
+            for q, o in d['seq'].items():
+                if not case['_seqmat'][q]:
+                    o.pop('mat', None)
             return d
         prod, red = v
         d = {'product': A.decode_observation(prod)}
@@ -635,6 +930,8 @@ class Check(PropertyCheck):
             closed = closed_inverse(case)
             d.update({'mv': obs['mv'], 'T': part(obs['T']), 'I': part(obs['I'], closed), 'asmat': obs['asmat'],
                       'reduce': part(obs['reduce']), 'wf': True})
+            sm = case.get('_seqmat') or {}
+            d['seq'] = {q: part(o, bool(sm.get(q))) for q, o in obs['seq'].items()}
             return d
         d = {'product': part(obs['product'])}
         if 'reduced' in obs:
@@ -723,7 +1020,7 @@ class Check(PropertyCheck):
         if t['keys']['in'] != k['out'] or t['keys']['out'] != k['in']:
             return f'.T does not swap the structures (dict keys): {t["keys"]} vs {k["in"]} -> {k["out"]}'
         refT = [list(r) for r in zip(*ref)] if ref and ref[0] else []
-        if t.get('mat') is None or (refT and not A.mat_close(t['mat'], refT)):
+        if t['exact'] and (t.get('mat') is None or (refT and not A.mat_close(t['mat'], refT))):
             return f'matrix of .T {t.get("mat")} is not the transposed stacked matrix {refT} ({t.get("mat_error")})'
         r = obs['reduce']
         if 'err' in r:
@@ -748,6 +1045,44 @@ class Check(PropertyCheck):
                 return f'.I of a non-square block operator did not raise ValueError: {inv.get("err") or inv.get("skel")}'
         elif 'err' in inv:
             return f'.I of a square block operator raised {inv["err"]}'
+        for q, o in obs['seq'].items():
+            msg = self.oracle_seq(kind, q, o, c, k)
+            if msg:
+                return msg
+        return None
+
+    def oracle_seq(self, kind, q, o, c, k):
+        """op.<steps> (e.g. 'TI' = op.T.I) is the block operator of the blocks' <steps>: class, container, structures,
+        block-by-block skeleton, and dense matrix == NumPy transposes / inverses of the blocks' matrices, stacked."""
+        name = '.' + '.'.join(q)
+        if 'err' in o:
+            return f'{name} raised {o["err"]}'
+        odd = q.count('T') % 2 == 1
+        want_cls = TKIND[kind] if odd else KIND[kind][0]
+        if o['skel'][0] != want_cls or len(o['skel'][3]) != len(c['skel'][3]):
+            return f'{name} is {o["skel"][0]} with {len(o["skel"][3])} blocks, expected {want_cls} with {len(c["skel"][3])}'
+        wi, wo = (c['out'], c['in']) if odd else (c['in'], c['out'])
+        ki, ko = (k['out'], k['in']) if odd else (k['in'], k['out'])
+        if o['in'] != wi or o['out'] != wo or o['keys']['in'] != ki or o['keys']['out'] != ko:
+            return f'{name} has structures {o["keys"]}, expected {ki} -> {ko}'
+        if 'blockwise' in o and o['skel'][3] != o['blockwise']:
+            return (f'{name} is not the block operator of the blocks\' {name}: blocks {o["skel"][3]}, '
+                    f'the blocks alone give {o["blockwise"]}')
+        if o.get('want') is None:
+            return None      # a singular block: nothing numeric to compare
+        if o.get('mat') is None:
+            return f'{name} cannot be evaluated: {o.get("mat_error")}'
+        for i, (g, w) in enumerate(zip(o.get('blocks') or [], o['want_blocks'])):
+            if not A.mat_close(g, w):
+                return f'block {i} of {name} has matrix {g}, NumPy on the matrix of block {i} gives {w}'
+        if not A.mat_close(o['mat'], o['want']):
+            return f'{name} has matrix {o["mat"]}, NumPy on the blocks\' matrices gives {o["want"]}'
+        if 'apply_error' in o:
+            return f'{name} cannot be applied: {o["apply_error"]}'
+        for form in ('dense', 'asmat'):
+            if form in o and not A.mat_close(o[form], o['want'], tol=2e-4):
+                return (f'{name}{".as_matrix()" if form == "asmat" else " applied to basis vectors"} gives {o[form]}, '
+                        f'NumPy on the blocks\' matrices gives {o["want"]}')
         return None
 
 
